@@ -281,6 +281,9 @@ func clusterTrace(args []string) error {
 				}
 				l := c.Leader(3 * time.Second)
 				kind := frng.Intn(7)
+				if f == 1 && run%2 == 0 {
+					kind = 6 // every other run has a snapshot install on a lagging follower
+				}
 				mu.Lock()
 				st.Faults++
 				mu.Unlock()
